@@ -252,7 +252,8 @@ PROPS = {
     },
     "C13": {
         "targets": ["spowtd.rise:compute_rise_offsets", "spowtd.recession:compute_offsets",
-                    "spowtd.zeta_grid:populate_zeta_grid", "spowtd.regrid:regrid"],
+                    "spowtd.zeta_grid:populate_zeta_grid", "spowtd.regrid:regrid",
+                    "spowtd.fit_offsets:build_head_mapping", "spowtd.fit_offsets:build_head_mapping#means"],
         "bounded": [{"run": "bounded.curves_checks:run_C13",
                      "what": "bounded stand-in at table level (real workflow on planted datasets): every rising / recession interval row is a "
                              "matched rise / an interstorm interval, its crossings equal an independent computation from its own samples, "
@@ -261,7 +262,11 @@ PROPS = {
                       "final level) of the matched rises of the join, that each rising_interval row is the start epoch of the rise chosen by "
                       "the fit and each rising_interval_zeta row is (that start epoch, level, crossing) for an entry of the fit's mapping; "
                       "that populate_zeta_grid inserts floor(min/step) .. ceil(max/step)-1 and that the grid cells cover [min, max]; and "
-                      "(C12) that regrid's crossings are exact. Recession side and the crossing means: bounded stand-in.",
+                      "(C12) that regrid's crossings are exact; and that build_head_mapping (variant #means) enters for series s at level h the "
+                      "arithmetic mean of exactly the positions regrid reports for s at h (ghost bijection between the crossings of a "
+                      "level and the places of the list that is averaged; the entered value is the last partial sum of that list "
+                      "divided by its length). The carry of those values through the sort and re-indexing of get_series_time_offsets "
+                      "is part of its proved contract (second components unchanged); recession side at table level: bounded stand-in.",
         "level_note": "SQL statements and get_series_time_offsets enter through assumed contracts (validated bounded). Defensive checks of "
                       "database consistency inside the step may abort it (tolerated: partial correctness; C20 makes the abort harmless).",
     },
